@@ -64,6 +64,9 @@ type world struct {
 	checkers    map[string]hs.CredentialChecker
 	services    map[string]*liveService
 	retainedRes []retained
+	// earlier operations on the same node that a reported input depends on (genuine handshakes
+	// before a replay): prepended to the ops of violations so that the replay file is self-contained
+	history []string
 }
 
 func newWorld(r *corr.Run) *world {
@@ -651,6 +654,9 @@ func (w *world) judge(stream string, s *sideRun, hung bool) (obs string) {
 	}
 	obs = w.observe(s)
 	model, ops := w.askSess(s.cfg, s.fed, s.end)
+	if len(w.history) > 0 {
+		ops = append(append([]string{}, w.history...), ops...)
+	}
 	// raw-peer and boundary streams are also the C11 evidence for the frame reader: property ""
 	// = every property that lists this area
 	prop := "C14"
@@ -1591,6 +1597,8 @@ func (w *world) replays() {
 		return
 	}
 	f1, f2, f3, f4 := po.frames[1], po.frames[2], po.frames[3], po.frames[4]
+	w.history = []string{"genuine handshake first: " + w.pairLine(oc, ic)}
+	defer func() { w.history = nil }()
 	others := []string{}
 	for _, p := range peerPool {
 		others = append(others, p)
@@ -1701,6 +1709,7 @@ func (w *world) instanceHistory(single bool) {
 		stream []byte
 		op     string
 	}
+	defer func() { w.history = nil }()
 	var recs []rec
 	perm := r.Perm(len(w.accts))
 	for k := 0; k < 2+r.Intn(3); k++ {
@@ -1717,6 +1726,7 @@ func (w *world) instanceHistory(single bool) {
 				[]string{"sess " + v.wire(w) + " stream=" + hexOrDash(s.fed)})
 		} else {
 			recs = append(recs, rec{v.rp, data, "sess " + v.wire(w) + " stream=" + hexOrDash(data)})
+			w.history = append(w.history, "earlier on this node: "+recs[len(recs)-1].op)
 		}
 		r.Count("history.genuine")
 	}
